@@ -292,20 +292,9 @@ Lemma existsb_map : forall {A B} (f : B -> bool) (g : A -> B) (l : list A),
   existsb f (map g l) = existsb (fun x => f (g x)) l.
 Proof. intros A B f g l. induction l as [|x r IH]; simpl; [reflexivity | rewrite IH; reflexivity]. Qed.
 
-Lemma existsb_false_in : forall {A} (f : A -> bool) (l : list A) x,
-  existsb f l = false -> In x l -> f x = false.
-Proof.
-  intros A f l x H Hin. destruct (f x) eqn:E; [|reflexivity].
-  assert (Ht : existsb f l = true) by (apply existsb_exists; exists x; split; assumption).
-  rewrite Ht in H. discriminate H.
-Qed.
-
 (* what the model's results mean in terms of the denotation *)
 Definition res_of_den (d : option dval) : fres :=
   match d with Some (DB b) => FVal (VBool b) | Some (DL l) => FVal (VList l) | None => FParseError end.
-
-(* every hazardous shape is, on the current code, either a crash or silently let through *)
-Definition hz (h : hazard) : bool := crashing h || unchecked h.
 
 Lemma status_of_den : forall ps n, amem n ps = true ->
   exists b, status_of ps n = Ok b /\ den_name ps n = Some b.
@@ -326,10 +315,9 @@ Proof.
 Qed.
 
 Lemma eval_leaf_den : forall ps ex rx,
-  oracle_wf ps (EStr ex rx) = true -> has_shape hz (EStr ex rx) = false ->
-  eval_leaf ps ex rx = res_of_den (den ps (EStr ex rx)).
+  oracle_wf ps (EStr ex rx) = true -> eval_leaf ps ex rx = res_of_den (den ps (EStr ex rx)).
 Proof.
-  intros ps ex rx Hwf Hhz. unfold eval_leaf. destruct ex as [p|].
+  intros ps ex rx Hwf. unfold eval_leaf. destruct ex as [p|].
   - simpl in Hwf. destruct (status_of_den ps p Hwf) as [b [Hs Hd]].
     rewrite Hs. simpl. rewrite Hd. reflexivity.
   - destruct rx as [l|k].
@@ -339,7 +327,7 @@ Proof.
         destruct (status_of_den ps m1 Hwf) as [b [Hs Hd]]. rewrite Hs. simpl. rewrite Hd. reflexivity.
       * destruct (status_list_den ps (m1 :: m2 :: r) Hwf) as [bl [Hsl [Hdl _]]].
         rewrite Hsl. cbn [den]. rewrite Hdl. reflexivity.
-    + simpl in Hhz. destruct k; discriminate Hhz.
+    + (* invalid pattern: ApplicationStatusParseError since 67529b2 *) reflexivity.
 Qed.
 
 (* the values of a BoolOp: relation between eval_seq and den_seq, given the pointwise relation *)
@@ -366,43 +354,45 @@ Proof.
     + split; reflexivity.
 Qed.
 
-(* eval = denotation, on every expression (whitelisted or not) that has no hazardous shape *)
+(* body of the Call branch for all/any: exactly one positional argument and no keyword, else ParseError *)
+Lemma eval_call_den : forall ps fn f args nkw,
+  (fn = DAll /\ f = FAll) \/ (fn = DAny /\ f = FAny) ->
+  Forall (fun e => oracle_wf ps e = true -> fst (eval ps e) = res_of_den (den ps e)) args ->
+  oracle_wf ps (ECall f args nkw) = true ->
+  fst (eval_call (eval ps) fn args nkw) = res_of_den (den ps (ECall f args nkw)).
+Proof.
+  intros ps fn f args nkw Hf IHargs Hwf.
+  destruct args as [|a rest].
+  - destruct Hf as [[H1 H2] | [H1 H2]]; subst; reflexivity.
+  - destruct rest as [|b rest'].
+    + destruct (Z.eqb nkw 0) eqn:En.
+      * apply Z.eqb_eq in En. subst nkw.
+        inversion IHargs as [|x r Pa _]; subst. simpl in Hwf. specialize (Pa Hwf).
+        unfold eval_call. simpl.
+        destruct (eval ps a) as [ra ta]. simpl in Pa. subst ra.
+        destruct Hf as [[H1 H2] | [H1 H2]]; subst; cbn [den];
+          destruct (den ps a) as [[b|l]|]; simpl; rewrite ?andb_true_r, ?orb_false_r; reflexivity.
+      * unfold eval_call. rewrite En. simpl.
+        destruct Hf as [[H1 H2] | [H1 H2]]; subst; destruct nkw; try discriminate En; reflexivity.
+    + destruct Hf as [[H1 H2] | [H1 H2]]; subst; reflexivity.
+Qed.
+
+(* eval = denotation, on EVERY expression (whitelisted or made of any other construct); never a crash *)
 Lemma eval_den : forall ps e,
-  oracle_wf ps e = true -> has_shape hz e = false -> fst (eval ps e) = res_of_den (den ps e).
+  oracle_wf ps e = true -> fst (eval ps e) = res_of_den (den ps e).
 Proof.
   intros ps. induction e as [ex rx | f args nkw IHargs | op vals IHvals | op a IHa | k] using expr_ind';
-    intros Hwf Hhz.
+    intros Hwf.
   - simpl. apply eval_leaf_den; assumption.
   - destruct f as [ | | | k].
-    + (* all *)
-      destruct args as [|a rest]; [simpl in Hhz; discriminate Hhz|].
-      simpl in Hhz. apply orb_false_iff in Hhz. destruct Hhz as [Hextra Hsa].
-      rewrite andb_true_r in Hextra.
-      destruct rest as [|b rest']; [|discriminate Hextra].
-      apply negb_false_iff, Z.eqb_eq in Hextra. subst nkw.
-      inversion IHargs as [|x r Pa _]; subst. simpl in Hwf. specialize (Pa Hwf Hsa).
-      cbn [eval eval_call den]. simpl.
-      destruct (eval ps a) as [ra ta]. simpl in Pa. subst ra.
-      destruct (den ps a) as [[b|l]|]; simpl; rewrite ?andb_true_r; reflexivity.
-    + (* any *)
-      destruct args as [|a rest]; [simpl in Hhz; discriminate Hhz|].
-      simpl in Hhz. apply orb_false_iff in Hhz. destruct Hhz as [Hextra Hsa].
-      rewrite andb_true_r in Hextra.
-      destruct rest as [|b rest']; [|discriminate Hextra].
-      apply negb_false_iff, Z.eqb_eq in Hextra. subst nkw.
-      inversion IHargs as [|x r Pa _]; subst. simpl in Hwf. specialize (Pa Hwf Hsa).
-      cbn [eval eval_call den]. simpl.
-      destruct (eval ps a) as [ra ta]. simpl in Pa. subst ra.
-      destruct (den ps a) as [[b|l]|]; simpl; rewrite ?orb_false_r; reflexivity.
-    + (* another function name *)
-      simpl. destruct args as [|a [|b r]]; [reflexivity | | reflexivity].
-      destruct nkw; reflexivity.
-    + simpl in Hhz. discriminate Hhz.
+    + cbn [eval]. apply (eval_call_den ps DAll FAll); [left; split; reflexivity | exact IHargs | exact Hwf].
+    + cbn [eval]. apply (eval_call_den ps DAny FAny); [right; split; reflexivity | exact IHargs | exact Hwf].
+    + simpl. destruct args as [|a [|b r]]; [reflexivity | | reflexivity]. destruct nkw; reflexivity.
+    + simpl. destruct args as [|a [|b r]]; [reflexivity | | reflexivity]. destruct nkw; reflexivity.
   - (* BoolOp *)
     assert (HF : Forall (fun e => fst (eval ps e) = res_of_den (den ps e)) vals).
-    { simpl in Hwf, Hhz. rewrite forallb_forall in Hwf. rewrite Forall_forall in *.
-      intros x Hx. apply IHvals; [exact Hx | apply Hwf; exact Hx |].
-      apply (existsb_false_in _ _ _ Hhz Hx). }
+    { simpl in Hwf. rewrite forallb_forall in Hwf. rewrite Forall_forall in *.
+      intros x Hx. apply IHvals; [exact Hx | apply Hwf; exact Hx]. }
     pose proof (eval_seq_den ps vals HF) as Hseq.
     cbn [eval den]. destruct (eval_seq (eval ps) vals) as [[err|vs] t]; simpl in Hseq.
     + destruct Hseq as [He Hd]. rewrite Hd. simpl. exact He.
@@ -411,145 +401,72 @@ Proof.
       * rewrite (Hf eq_refl). reflexivity.
   - (* UnaryOp *)
     destruct op; [|reflexivity].
-    simpl in Hwf, Hhz. specialize (IHa Hwf Hhz). cbn [eval den].
+    simpl in Hwf. specialize (IHa Hwf). cbn [eval den].
     destruct (eval ps a) as [ra ta]. simpl in IHa. subst ra.
     destruct (den ps a) as [[b|l]|]; reflexivity.
   - reflexivity.
 Qed.
 
-Lemma wl_no_hazard : forall e, wl e = true -> has_shape hz e = false.
-Proof.
-  induction e as [ex rx | f args nkw IHargs | op vals IHvals | op a IHa | k] using expr_ind'; intros H.
-  - destruct ex as [p|]; [reflexivity|]. destruct rx as [l|k]; [reflexivity | discriminate H].
-  - destruct f; try discriminate H;
-      (destruct args as [|a [|b r]]; try discriminate H; destruct nkw; try discriminate H;
-       inversion IHargs as [|x r Pa _]; subst; simpl; rewrite (Pa H); reflexivity).
-  - simpl in *. rewrite forallb_forall in H. rewrite Forall_forall in IHvals.
-    destruct (existsb (has_shape hz) vals) eqn:E; [|reflexivity].
-    apply existsb_exists in E. destruct E as [x [Hx Hs]].
-    rewrite (IHvals x Hx (H x Hx)) in Hs. discriminate Hs.
-  - destruct op; [|discriminate H]. simpl in *. apply IHa. exact H.
-  - discriminate H.
-Qed.
-
 (* P0 formula_semantics: on the whitelisted fragment (string leaves, all/any of one argument, and/or, not),
    evaluate() is the evident denotation: a boolean, a list (pattern with several matches, to be consumed by
    any/all) or ApplicationStatusParseError when the denotation is undefined (pattern matching nothing, list
-   given to and/or/not). *)
+   given to and/or/not). H_depth states the scope of the model (Python's recursion limit is not modelled). *)
 Theorem formula_semantics : forall ps e,
-  wl e = true -> oracle_wf ps e = true -> fst (eval ps e) = res_of_den (den ps e).
-Proof. intros ps e Hwl Hwf. apply eval_den; [exact Hwf | apply wl_no_hazard; exact Hwl]. Qed.
+  wl e = true -> depth_ok e = true -> oracle_wf ps e = true -> fst (eval ps e) = res_of_den (den ps e).
+Proof. intros ps e _ _ Hwf. apply eval_den. exact Hwf. Qed.
 
 Example formula_semantics_ex :
   let ps := [(1, mkPV RUNNING None true false 1); (2, mkPV STOPPED None true false 1);
              (3, mkPV EXITED None true false 1)] in
   let e := EBoolOp BAnd [ECall FAny [EStr None (RxMatches [1; 2])] 0;
                          EUnary UNot (EStr (Some 2) (RxMatches [2])); EStr None (RxMatches [3])] in
-  wl e = true /\ oracle_wf ps e = true /\ den ps e = Some (DB true)
+  wl e = true /\ depth_ok e = true /\ oracle_wf ps e = true /\ den ps e = Some (DB true)
   /\ eval ps e = (FVal (VBool true), [(DAny, [true; false])]).
 Proof. vm_compute. repeat split. Qed.
 
 (* the major failure computed by update_status_formula *)
 Definition major_of (r : fres) : bool := match r with FVal (VBool b) => negb b | _ => true end.
 
-(* P0 (spec refinement for formulas): for EVERY expression without hazardous shape — whitelisted or made of any
-   other construct — the major failure is the one of the property text: negation of the formula on the fragment,
-   major failure for any other construct or a pattern matching nothing. Never a crash. *)
+(* P0 (spec refinement for formulas): for EVERY expression — whitelisted or made of any other construct — the
+   major failure is the one of the property text: negation of the formula on the fragment, major failure for any
+   other construct or a pattern matching nothing. update() completes. *)
 Theorem formula_refines_spec : forall ps seqd e,
-  oracle_wf ps e = true -> has_shape hz e = false ->
+  depth_ok e = true -> oracle_wf ps e = true ->
   exists minor tr,
     update ps seqd (Some (TExprStmt e))
     = (UOk (mk_uobs (spec_app_state (displayed_states ps)) (spec_formula_major ps (TExprStmt e), minor)), tr).
 Proof.
-  intros ps seqd e Hwf Hhz. pose proof (eval_den ps e Hwf Hhz) as H.
+  intros ps seqd e _ Hwf. pose proof (eval_den ps e Hwf) as H.
   unfold update, status_formula. rewrite app_state_priority.
   destruct (eval ps e) as [r t]. simpl in H. subst r. unfold spec_formula_major.
   destruct (den ps e) as [[b|l]|]; simpl; eexists; eexists; reflexivity.
 Qed.
 
 (* ------------------------------------------------------------------ formula_total *)
-Lemma crashing_extra : crashing HzExtraArgs = false.
-Proof. reflexivity. Qed.
-
-Lemma status_list_nocrash : forall ps l, forallb (fun n => amem n ps) l = true ->
-  exists bl, status_list ps l = Ok bl.
-Proof. intros ps l H. destruct (status_list_den ps l H) as [bl [Hs _]]. exists bl. exact Hs. Qed.
-
 Definition not_crash (r : fres) : Prop := match r with FCrash _ => False | _ => True end.
 
-Lemma eval_leaf_nocrash : forall ps ex rx,
-  oracle_wf ps (EStr ex rx) = true -> has_shape crashing (EStr ex rx) = false -> not_crash (eval_leaf ps ex rx).
+Lemma eval_nocrash : forall ps e, oracle_wf ps e = true -> not_crash (fst (eval ps e)).
 Proof.
-  intros ps ex rx Hwf Hc. unfold eval_leaf. destruct ex as [p|].
-  - simpl in Hwf. destruct (status_of_den ps p Hwf) as [b [Hs _]]. rewrite Hs. exact I.
-  - destruct rx as [l|k].
-    + simpl in Hwf. destruct l as [|m1 [|m2 r]].
-      * exact I.
-      * simpl in Hwf. rewrite andb_true_r in Hwf.
-        destruct (status_of_den ps m1 Hwf) as [b [Hs _]]. rewrite Hs. exact I.
-      * destruct (status_list_nocrash ps (m1 :: m2 :: r) Hwf) as [bl Hsl]. rewrite Hsl. exact I.
-    + simpl in Hc. destruct k; discriminate Hc.
+  intros ps e Hwf. rewrite (eval_den ps e Hwf). destruct (den ps e) as [[b|l]|]; exact I.
 Qed.
 
-Lemma eval_seq_nocrash : forall ps vals,
-  Forall (fun e => not_crash (fst (eval ps e))) vals ->
-  match fst (eval_seq (eval ps) vals) with inl err => not_crash err | inr _ => True end.
-Proof.
-  intros ps vals H. induction H as [|x r Hx Hr IH]; simpl; [exact I|].
-  destruct (eval ps x) as [rx tx]. simpl in Hx.
-  destruct rx as [v| |k]; simpl.
-  - destruct (eval_seq (eval ps) r) as [[err|vs] t']; simpl in *; [exact IH | exact I].
-  - exact I.
-  - destruct Hx.
-Qed.
-
-Lemma eval_nocrash : forall ps e,
-  oracle_wf ps e = true -> has_shape crashing e = false -> not_crash (fst (eval ps e)).
-Proof.
-  intros ps. induction e as [ex rx | f args nkw IHargs | op vals IHvals | op a IHa | k] using expr_ind';
-    intros Hwf Hc.
-  - simpl. apply eval_leaf_nocrash; assumption.
-  - assert (Hcall : forall fn, f = FAll \/ f = FAny -> not_crash (fst (eval_call (eval ps) fn args nkw))).
-    { intros fn Hf. destruct args as [|a rest].
-      - simpl in Hc. destruct Hf as [Hf | Hf]; subst f; discriminate Hc.
-      - assert (Hsa : has_shape crashing a = false).
-        { destruct Hf as [Hf | Hf]; subst f; simpl in Hc; rewrite crashing_extra, andb_false_r in Hc; exact Hc. }
-        inversion IHargs as [|x r Pa _]; subst. simpl in Hwf. specialize (Pa Hwf Hsa).
-        unfold eval_call. simpl hazard_policy.
-        destruct (match rest with [] => negb (nkw =? 0) | _ :: _ => true end);
-          destruct (eval ps a) as [ra ta]; simpl in Pa; destruct ra as [v| |k]; simpl; try exact I; destruct Pa. }
-    destruct f as [ | | | k]; cbn [eval].
-    + apply Hcall. left. reflexivity.
-    + apply Hcall. right. reflexivity.
-    + exact I.
-    + simpl in Hc. discriminate Hc.
-  - assert (HF : Forall (fun e => not_crash (fst (eval ps e))) vals).
-    { simpl in Hwf, Hc. rewrite forallb_forall in Hwf. rewrite Forall_forall in *.
-      intros x Hx. apply IHvals; [exact Hx | apply Hwf; exact Hx | apply (existsb_false_in _ _ _ Hc Hx)]. }
-    pose proof (eval_seq_nocrash ps vals HF) as Hseq. cbn [eval].
-    destruct (eval_seq (eval ps) vals) as [[err|vs] t]; simpl in Hseq; simpl.
-    + exact Hseq.
-    + destruct (forallb is_vbool vs); exact I.
-  - destruct op; [|exact I]. simpl in Hwf, Hc. specialize (IHa Hwf Hc). cbn [eval].
-    destruct (eval ps a) as [ra ta]. simpl in IHa. destruct ra as [[b|l]| |k]; simpl; try exact I. destruct IHa.
-  - exact I.
-Qed.
-
-(* P0 formula_total, under the named hypothesis H_no_crash_shape = [crash_shape_free e] which excludes exactly the
-   three crashing shapes (Call whose func is not a Name, all()/any() without positional argument, leaf that is
-   not a valid regex), looked for where evaluate() can reach them:
-   evaluate() yields a boolean, a list or ApplicationStatusParseError — never another exception — and update()
-   completes; ParseError or a non-boolean result gives a major failure. *)
+(* P0 formula_total — UNCONDITIONAL for the shapes since /repo commit 67529b2 (the former hypothesis
+   crash_shape_free is gone): for EVERY expression, evaluate() yields a boolean, a list or
+   ApplicationStatusParseError — never another exception — and update() completes; ParseError or a non-boolean
+   result gives a major failure. Remaining hypotheses: H_depth (recursion limit of Python not modelled: the
+   statement is about formulas nested at most py_depth_bound deep; a formula about 1000 levels deep still raises
+   RecursionError out of update()) and oracle_wf (well-formedness of the oracle input, not a restriction of the
+   code: the regex oracle only returns names of the application). *)
 Theorem formula_total : forall ps seqd e,
-  crash_shape_free e = true -> oracle_wf ps e = true ->
+  depth_ok e = true -> oracle_wf ps e = true ->
   not_crash (fst (eval ps e)) /\
   exists minor tr,
     update ps seqd (Some (TExprStmt e))
     = (UOk (mk_uobs (update_state (displayed_states ps)) (major_of (fst (eval ps e)), minor)), tr)
     /\ (major_of (fst (eval ps e)) = false -> exists b, fst (eval ps e) = FVal (VBool b) /\ b = true).
 Proof.
-  intros ps seqd e Hc Hwf. unfold crash_shape_free in Hc. apply negb_true_iff in Hc.
-  pose proof (eval_nocrash ps e Hwf Hc) as Hn. split; [exact Hn|].
+  intros ps seqd e _ Hwf.
+  pose proof (eval_nocrash ps e Hwf) as Hn. split; [exact Hn|].
   unfold update, status_formula. destruct (eval ps e) as [r t]. simpl in *.
   destruct r as [[b|l]| |k]; simpl.
   - eexists. eexists. split; [reflexivity|]. intros Hb. exists b. split; [reflexivity|].
@@ -559,60 +476,49 @@ Proof.
   - destruct Hn.
 Qed.
 
-Example formula_total_ex :
-  let ps := [(1, mkPV RUNNING None true false 1)] in
-  let e := EBoolOp BOr [EOther KLambda; ECall FOtherName [] 2; ECall FAll [EStr (Some 1) (RxMatches [1]); EOther KStarred] 1;
-                        EUnary UOther (EOther KName)] in
-  crash_shape_free e = true /\ oracle_wf ps e = true /\ fst (eval ps e) = FParseError.
-Proof. vm_compute. repeat split. Qed.
-
-(* The unconditional statement is FALSE on the current code (F14): each excluded shape reaches an exception
-   other than ApplicationStatusParseError, which propagates out of update(). Witnesses = the Python replays
-   a.b("p1") / all() / "(" on two RUNNING processes p1, p2. *)
+(* The former F14 witnesses (formula_total_refuted, extra_args_refuted before the fix) now all yield a major
+   failure: a.b("p1") / all() / "(" / all("p1", "zz") on two RUNNING processes p1, p2. *)
 Definition f14_ps : procs := [(1, mkPV RUNNING None true false 1); (2, mkPV RUNNING None true false 1)].
 
-Theorem formula_total_refuted :
-  (exists e, oracle_wf f14_ps e = true /\
-     fst (update f14_ps [1; 2] (Some (TExprStmt e))) = UCrash AttributeError (mk_uobs ARUNNING (false, false)))
-  /\ (exists e, oracle_wf f14_ps e = true /\
-     fst (update f14_ps [1; 2] (Some (TExprStmt e))) = UCrash IndexError (mk_uobs ARUNNING (false, false)))
-  /\ (exists e, oracle_wf f14_ps e = true /\
-     fst (update f14_ps [1; 2] (Some (TExprStmt e))) = UCrash ReError (mk_uobs ARUNNING (false, false))).
+Example formula_total_ex :
+  Forall (fun e => depth_ok e = true /\ oracle_wf f14_ps e = true /\
+                   fst (update f14_ps [1; 2] (Some (TExprStmt e))) = UOk (mk_uobs ARUNNING (true, false)))
+    [ECall (FNotName KAttribute) [EStr (Some 1) (RxMatches [1])] 0;
+     ECall FAll [] 0;
+     EStr None (RxError ReError);
+     ECall FAll [EStr (Some 1) (RxMatches [1]); EStr None (RxMatches [])] 0;
+     ECall FAny [EStr (Some 1) (RxMatches [1])] 1;
+     EBoolOp BOr [EOther KLambda; ECall FOtherName [] 2; EUnary UOther (EOther KName)]].
+Proof. repeat constructor. Qed.
+
+(* the setter: a single statement that is not an expression statement (pass, import, return, x = "p1", ...) is
+   rejected with ApplicationStatusParseError, as is any failure of the parser it catches; nothing else is raised *)
+Theorem setter_rejects_non_expr : forall n t,
+  (forall e, t <> TExprStmt e) -> set_formula (PBody n (Some t)) = SRejected.
 Proof.
-  split; [|split].
-  - exists (ECall (FNotName KAttribute) [EStr (Some 1) (RxMatches [1])] 0). vm_compute. split; reflexivity.
-  - exists (ECall FAll [] 0). vm_compute. split; reflexivity.
-  - exists (EStr None (RxError ReError)). vm_compute. split; reflexivity.
+  intros n t Ht. simpl. destruct (Z.eqb n 1); [|reflexivity].
+  destruct t as [e| | |]; try reflexivity. exfalso. apply (Ht e). reflexivity.
 Qed.
 
-(* each excluded shape is necessary: the hypothesis of formula_total cannot be weakened shape by shape *)
-Lemma crash_shapes_exact : forall h, crashing h = true <->
-  (h = HzFuncNotName \/ h = HzNoArgs \/ exists k, h = HzBadRegex k).
+Theorem setter_total : forall p, (forall k, p <> PRaise k) -> (forall n, p <> PBody n None \/ n <> 1) ->
+  forall k, set_formula p <> SCrash k.
 Proof.
-  intros h. split.
-  - destruct h as [ | |k| ]; intros H; try discriminate H;
-      [left; reflexivity | right; left; reflexivity | right; right; exists k; reflexivity].
-  - intros [H | [H | [k H]]]; subst h; reflexivity.
+  intros p Hr Hb k. destruct p as [ | | k' | n first]; simpl.
+  - intro H. discriminate H.
+  - intro H. discriminate H.
+  - exfalso. apply (Hr k'). reflexivity.
+  - destruct (Z.eqb n 1) eqn:En; [|intro H; discriminate H].
+    apply Z.eqb_eq in En. subst n.
+    destruct first as [t|].
+    + destruct t; simpl; intro H; discriminate H.
+    + destruct (Hb 1) as [H | H]; exfalso; apply H; reflexivity.
 Qed.
 
-(* a statement that is not an expression: crash, formula ignored, or evaluated as something else *)
-Theorem toplevel_not_expr_refuted :
-  fst (update f14_ps [1; 2] (Some TStmtNoValue)) = UCrash AttributeError (mk_uobs ARUNNING (false, false))
-  /\ (fst (update [(1, mkPV FATAL None true false 1)] [1] (Some TStmtNone)) = UOk (mk_uobs ASTOPPED (false, true))
-      /\ spec_formula_major [(1, mkPV FATAL None true false 1)] TStmtNone = true)
-  /\ (fst (update f14_ps [1; 2] (Some (TStmtValue (EStr (Some 1) (RxMatches [1]))))) = UOk (mk_uobs ARUNNING (false, false))
-      /\ spec_formula_major f14_ps (TStmtValue (EStr (Some 1) (RxMatches [1]))) = true).
-Proof. vm_compute. repeat split. Qed.
-
-(* extra arguments of all/any are silently ignored: all("p1", "zz") is not a major failure although "zz" matches
-   nothing *)
-Theorem extra_args_refuted : exists e,
-  oracle_wf f14_ps e = true /\ crash_shape_free e = true /\
-  fst (update f14_ps [1; 2] (Some (TExprStmt e))) = UOk (mk_uobs ARUNNING (false, false))
-  /\ spec_formula_major f14_ps (TExprStmt e) = true.
-Proof.
-  exists (ECall FAll [EStr (Some 1) (RxMatches [1]); EStr None (RxMatches [])] 0). vm_compute. repeat split.
-Qed.
+Example setter_ex :
+  set_formula PParserError = SRejected /\ set_formula (PBody 1 (Some TStmtNoValue)) = SRejected
+  /\ set_formula (PBody 1 (Some (TStmtValue (EOther KName)))) = SRejected /\ set_formula (PBody 2 None) = SRejected
+  /\ set_formula (PBody 1 (Some (TExprStmt (EOther KName)))) = SStored (TExprStmt (EOther KName)).
+Proof. repeat split. Qed.
 
 (* ------------------------------------------------------------------ no_other_execution *)
 Lemma eval_seq_err_not_val : forall ev vals err t,
@@ -641,7 +547,7 @@ Proof.
       * simpl in H. discriminate H.
   - destruct f; cbn [eval] in H; try discriminate H;
       (unfold eval_call in H; destruct args as [|a rest]; [discriminate H|]; simpl hazard_policy in H;
-       destruct (match rest with [] => negb (nkw =? 0) | _ :: _ => true end);
+       destruct (match rest with [] => negb (nkw =? 0) | _ :: _ => true end); [discriminate H|];
        destruct (eval ps a) as [ra ta]; destruct ra as [[b|l']| |k]; discriminate H).
   - cbn [eval] in H. destruct (eval_seq (eval ps) vals) as [[err|vs] t] eqn:E; simpl in H.
     + exfalso. subst err. exact (eval_seq_err_not_val _ _ _ _ E _ eq_refl).
@@ -667,18 +573,11 @@ Proof.
   - assert (Hcall : forall fn, Forall (fun c : evcall => snd c <> []) (snd (eval_call (eval ps) fn args nkw))).
     { intros fn. unfold eval_call. destruct args as [|a rest]; [constructor|]. simpl hazard_policy.
       inversion IHargs as [|x r Pa _]; subst.
-      assert (Hgo : Forall (fun c : evcall => snd c <> [])
-                (snd (match eval ps a with
-                      | (FVal v, t) =>
-                          let l := match v with VBool b => [b] | VList l => l end in
-                          (FVal (VBool (apply_dyn fn l)), t ++ [(fn, l)])
-                      | (r, t) => (r, t)
-                      end))).
-      { destruct (eval ps a) as [ra ta] eqn:E. simpl in Pa. destruct ra as [[b|l]| |k]; simpl; try exact Pa.
-        - apply Forall_app. split; [exact Pa|]. constructor; [|constructor]. simpl. intro Hn. discriminate Hn.
-        - apply Forall_app. split; [exact Pa|]. constructor; [|constructor]. simpl.
-          apply (eval_vlist_nonempty ps a). rewrite E. reflexivity. }
-      destruct (match rest with [] => negb (nkw =? 0) | _ :: _ => true end); exact Hgo. }
+      destruct (match rest with [] => negb (nkw =? 0) | _ :: _ => true end); [constructor|].
+      destruct (eval ps a) as [ra ta] eqn:E. simpl in Pa. destruct ra as [[b|l]| |k]; simpl; try exact Pa.
+      - apply Forall_app. split; [exact Pa|]. constructor; [|constructor]. simpl. intro Hn. discriminate Hn.
+      - apply Forall_app. split; [exact Pa|]. constructor; [|constructor]. simpl.
+        apply (eval_vlist_nonempty ps a). rewrite E. reflexivity. }
     destruct f; cbn [eval]; try apply Hcall; constructor.
   - cbn [eval]. pose proof (eval_seq_trace _ ps vals IHvals) as H.
     destruct (eval_seq (eval ps) vals) as [[err|vs] t]; simpl in *; [exact H|].
@@ -717,59 +616,49 @@ Proof.
 Qed.
 
 (* ------------------------------------------------------------------ the model satisfies Spec_C15 *)
-Lemma hz_any : forall h, hz h = any_hazard h.
-Proof. destruct h; reflexivity. Qed.
-
-Lemma has_shape_ext : forall (h1 h2 : hazard -> bool), (forall h, h1 h = h2 h) ->
-  forall e, has_shape h1 e = has_shape h2 e.
-Proof.
-  intros h1 h2 Hext. induction e as [ex rx | f args nkw IHargs | op vals IHvals | op a IHa | k] using expr_ind'.
-  - destruct ex; [reflexivity|]. destruct rx; [reflexivity | simpl; apply Hext].
-  - destruct f; simpl; try reflexivity; try apply Hext;
-      (destruct args as [|a rest]; [apply Hext|]; inversion IHargs as [|x r Pa _]; subst; rewrite Pa, Hext; reflexivity).
-  - simpl. induction IHvals as [|x r Hx Hr IH]; simpl; [reflexivity | rewrite Hx, IH; reflexivity].
-  - destruct op; simpl; [exact IHa | reflexivity].
-  - reflexivity.
-Qed.
-
-(* P0: on every well-formed case with an up-to-date start sequence and outside the known-finding classes
-   (hazardous Call/regex shapes, single statement that is not an expression, parser exception), the observable
-   of the model is accepted by the specification written from the property text. With T3 (implementation =
-   model on every generated case) this is the property; it is also why [spec_violations] is expected empty. *)
 Opaque update spec_required op_status spec_app_state spec_formula_major.
 
+(* P0: on every well-formed case (oracle inputs well-formed, depth in scope) with an up-to-date start sequence,
+   the observable of the model is accepted by the specification written from the property text — no known-finding
+   class is excluded any more. With T3 (implementation = model on every generated case) this is the property; it
+   is also why [spec_violations] is expected empty. *)
 Theorem c15_model_refines_spec : forall a,
-  sequences_fresh a = true -> app_wf a = true -> in_known_class a = false ->
-  case_violation (a, app_run a) = false.
+  sequences_fresh a = true -> app_wf a = true -> case_violation (a, app_run a) = false.
 Proof.
-  intros a Hfresh Hwf Hk. unfold case_violation. simpl fst. simpl snd. rewrite Hfresh. simpl.
+  intros a Hfresh Hwf. unfold case_violation. simpl fst. simpl snd. rewrite Hfresh. simpl.
   apply negb_false_iff.
-  unfold in_known_class in Hk. apply orb_false_iff in Hk. destruct Hk as [Hk Hpr].
-  apply orb_false_iff in Hk. destruct Hk as [Hshape Htop].
   unfold app_wf in Hwf. apply andb_true_iff in Hwf. destruct Hwf as [Hbody Horacle].
   unfold app_run, app_setter. rewrite (fresh_sequenced a Hfresh).
-  unfold in_class_shape, formula_expr, in_class_toplevel, in_class_parse_raises, single_stmt in *.
+  unfold formula_expr, single_stmt in *.
   destruct a as [ps managed prefix formula]. simpl in *.
   destruct formula as [p|].
   2:{ (* no formula *)
       rewrite required_status_update. unfold spec_accepts_app, spec_setter_ok, has_formula. simpl.
       rewrite Z.eqb_refl, !eqb_reflx, Z.eqb_refl. reflexivity. }
-  destruct p as [ | k | n first].
+  destruct p as [ | | k | n first].
   - (* SyntaxError: rejected *)
     simpl. rewrite required_status_update. unfold spec_accepts_app, spec_setter_ok, has_formula. simpl.
     rewrite Z.eqb_refl, !eqb_reflx, Z.eqb_refl. reflexivity.
-  - discriminate Hpr.
+  - (* parser failure caught by the setter: rejected *)
+    simpl. rewrite required_status_update. unfold spec_accepts_app, spec_setter_ok, has_formula. simpl.
+    rewrite Z.eqb_refl, !eqb_reflx, Z.eqb_refl. reflexivity.
+  - discriminate Hbody.
   - simpl. destruct (Z.eqb n 1) eqn:En.
     + destruct first as [t|]; [|discriminate Hbody].
-      destruct t as [e|e| |]; try discriminate Htop.
-      rewrite <- (has_shape_ext hz any_hazard hz_any) in Hshape.
-      destruct (formula_refines_spec ps (sequenced_names (update_sequences managed ps)) e Horacle Hshape)
-        as [minor [tr Hu]].
-      rewrite Hu. unfold spec_accepts_app, spec_setter_ok, single_stmt. simpl. rewrite En. simpl.
-      rewrite Z.eqb_refl, !eqb_reflx, Z.eqb_refl. reflexivity.
+      destruct t as [e|e| |].
+      * apply andb_true_iff in Horacle. destruct Horacle as [Horacle Hdepth].
+        destruct (formula_refines_spec ps (sequenced_names (update_sequences managed ps)) e Hdepth Horacle)
+          as [minor [tr Hu]].
+        rewrite Hu. unfold spec_accepts_app, spec_setter_ok, single_stmt. simpl. rewrite En. simpl.
+        rewrite Z.eqb_refl, !eqb_reflx, Z.eqb_refl. reflexivity.
+      * (* single statement that is not an expression: rejected *)
+        simpl. rewrite required_status_update. unfold spec_accepts_app, spec_setter_ok, has_formula. simpl.
+        rewrite En. simpl. rewrite Z.eqb_refl, !eqb_reflx, Z.eqb_refl. reflexivity.
+      * simpl. rewrite required_status_update. unfold spec_accepts_app, spec_setter_ok, has_formula. simpl.
+        rewrite En. simpl. rewrite Z.eqb_refl, !eqb_reflx, Z.eqb_refl. reflexivity.
+      * simpl. rewrite required_status_update. unfold spec_accepts_app, spec_setter_ok, has_formula. simpl.
+        rewrite En. simpl. rewrite Z.eqb_refl, !eqb_reflx, Z.eqb_refl. reflexivity.
     + (* not exactly one statement: rejected *)
-      assert (Hrej : match first with
-                     | Some (TExprStmt _) | Some _ | None => true end = true) by (destruct first as [[| | |]|]; reflexivity).
       rewrite required_status_update. unfold spec_accepts_app, spec_setter_ok, has_formula. simpl.
       rewrite En. simpl. rewrite Z.eqb_refl, !eqb_reflx, Z.eqb_refl. reflexivity.
 Qed.
@@ -780,23 +669,6 @@ Example c15_model_refines_spec_ex :
   let a := mkApp [(1, mkPV RUNNING None true true 1); (2, mkPV EXITED (Some FATAL) false false 0)] true 2
              (Some (PBody 1 (Some (TExprStmt (EBoolOp BAnd [EStr (Some 1) (RxMatches [1]);
                                                             ECall FAny [EStr None (RxMatches [1; 2])] 0]))))) in
-  sequences_fresh a = true /\ app_wf a = true /\ in_known_class a = false
+  sequences_fresh a = true /\ app_wf a = true
   /\ app_run a = (OStored, UOk (acode ARUNNING, false, true, 2), [(1, [true; false])], 0, [1; 2]).
 Proof. vm_compute. repeat split. Qed.
-
-(* the setter never raises anything but ApplicationStatusParseError, unless the parser itself does *)
-Theorem setter_total : forall p, (forall k, p <> PRaise k) -> (forall n, p <> PBody n None \/ n <> 1) ->
-  forall k, set_formula p <> SCrash k.
-Proof.
-  intros p Hr Hb k. destruct p as [ | k' | n first]; simpl.
-  - intro H. discriminate H.
-  - exfalso. apply (Hr k'). reflexivity.
-  - destruct (Z.eqb n 1) eqn:En; [|intro H; discriminate H].
-    apply Z.eqb_eq in En. subst n.
-    destruct first as [t|].
-    + destruct t; simpl; intro H; discriminate H.
-    + destruct (Hb 1) as [H | H]; exfalso; apply H; reflexivity.
-Qed.
-
-Theorem setter_parse_raises_refuted : exists p k, set_formula p = SCrash k.
-Proof. exists (PRaise OtherError), OtherError. reflexivity. Qed.
